@@ -98,6 +98,15 @@ def fixed_inputs():
            "CLASS EXPRESSION {} END", "CLASS EXPRESSION {,} END", "CLASS EXPRESSION [] END", "CLASS EXPRESSION // END", "CLASS EXPRESSION / END",
            "CLASS EXPRESSION (true) END", "CLASS EXPRESSION (NULL) END", "CLASS EXPRESSION NOT ([a] = 1) END", "CLASS EXPRESSION ! ([a] = 1) END",
            "CLASS EXPRESSION NOT END"]
+    # comments at every kind of place, several on one line, unterminated, alone (the bookkeeping flags read them)
+    cm = ["/* a */", "# b", "/* a */ /* a */", "/* a */ # b", "/* a\nb */", "/**/", "#", "/* a */ /* b */ /* c */"]
+    for c in cm:
+        out += [c, c + "\n", c + "\nMAP\nEND", "MAP " + c + "\nEND", "MAP\n  " + c + "\n  NAME 'x'\nEND", "MAP\n  NAME " + c + "\n 'x'\nEND",
+                "MAP\n  NAME 'x' " + c + "\nEND", "MAP\n  NAME 'x'\nEND " + c, "MAP\n  NAME 'x'\n" + c + "\nEND\n" + c + "\n" + c,
+                "MAP\n  " + c + "\n  " + c + "\n  LAYER " + c + "\n  " + c + "\n  END\nEND",
+                "MAP\n METADATA " + c + "\n 'a' " + c + "\n 'b' " + c + "\n END\nEND", "MAP\n PROJECTION " + c + "\n 'a' " + c + "\n END\nEND",
+                "FEATURE POINTS " + c + " 1 " + c + "\n 2 END END", "CLASS EXPRESSION " + c + "\n ([a] = 1) END", "LAYER PROCESSING 'a' " + c + "\nPROCESSING 'b' " + c + "\nEND",
+                "MAP CONFIG 'a' " + c + "\n 'b' " + c + "\nEND", "MAP NAME 'x' " + c + " " + c]
     blocks = [t.upper() for t in vocab.OBJ_TYPES] + ["METADATA", "VALIDATION", "CONNECTIONOPTIONS", "VALUES", "PROJECTION", "POINTS", "PATTERN", "CONFIG", "SYMBOLSET"]
     for b in blocks:
         out += [b, b + " END", b.lower() + " end", b + "\nNAME 'x'\nEND", b + " " + b + " END END", b + " END " + b + " END", b + " 'a' 'b' END",
@@ -114,7 +123,7 @@ def fixed_inputs():
     return out
 
 
-def classify(text, expand=True, public=False):
+def classify(text, expand=True, public=False, comments=False, position=False):
     """-> (outcome label, discrepancy message or None)"""
     import lark
 
@@ -124,9 +133,9 @@ def classify(text, expand=True, public=False):
         if public:
             import mappyfile
 
-            d = mappyfile.loads(text) if expand else mappyfile.loads(text, expand_includes=False)
+            d = mappyfile.loads(text, expand_includes=expand, include_comments=comments, include_position=position)
         else:
-            d = W.loads(text, expand=expand)
+            d = W.loads(text, expand=expand, comments=comments, position=position)
     except lark.exceptions.LarkError as e:
         if isinstance(e, lark.exceptions.UnexpectedInput):
             line, col = getattr(e, "line", None), getattr(e, "column", None)
@@ -251,7 +260,10 @@ def search(acc: Acc, tier, shard, nshards):
             acc.excl("out_of_stated_nesting_bounds")
             return []
         expand = not ch.chance(1, 5)
-        label, msg = classify(text, expand=expand, public=ch.chance(1, 50))
+        comments, position = ch.chance(1, 3), ch.chance(1, 4)   # "every input string": under the bookkeeping flags too
+        if comments:
+            acc.cls("flag:include_comments")
+        label, msg = classify(text, expand=expand, public=ch.chance(1, 50), comments=comments, position=position)
         nt = label.endswith(":middle") or (label == "accepted") or label.startswith("reject:Visit") or label.startswith("reject:UnexpectedCharacters")
         acc.case(text, nt, sample={"family": fam, "mutations": kinds, "outcome": label, "text": text[:300]} if 20 < len(text) < 300 else None)
         acc.cls("family:" + fam)
@@ -259,7 +271,7 @@ def search(acc: Acc, tier, shard, nshards):
         for k_ in kinds:
             acc.cls("mutation:" + k_)
         if msg:
-            return [Discrepancy(label, msg, {"text": text, "expand": expand})]
+            return [Discrepancy(label, msg, {"text": text, "expand": expand, "comments": comments, "position": position})]
         return []
 
     hyp_search(acc, ID, "inputs", shard, n, body, tier)
@@ -386,13 +398,13 @@ def fixed_part(acc: Acc, tier, shard, nshards):
     for i, text in enumerate(inputs):
         if i % nshards != shard:
             continue
-        for expand in (True, False):
-            label, msg = classify(text, expand=expand)
-            acc.case([text, expand], True, sample={"family": "fixed", "outcome": label, "text": text[:200]} if i % 40 == 0 else None)
+        for expand, com in ((True, False), (False, False), (True, True)):
+            label, msg = classify(text, expand=expand, comments=com, position=com)
+            acc.case([text, expand, com], True, sample={"family": "fixed", "outcome": label, "text": text[:200]} if i % 40 == 0 else None)
             acc.cls("family:fixed")
             acc.cls("outcome:" + label.split(":middle")[0].split(":last_line")[0])
             if msg and not any(v["bucket"] == label for v in acc.violations):
-                acc.violations.append({"bucket": label, "message": msg + f" for input {text!r:.120}", "case": {"text": text, "expand": expand},
+                acc.violations.append({"bucket": label, "message": msg + f" for input {text!r:.120}", "case": {"text": text, "expand": expand, "comments": com, "position": com},
                                        "search": "fixed", "shard": shard, "round": 0, "seed": env.verif_seed(), "tier": tier})
     # linear-time clause: run by shard 0 only, after a pause-free measurement on CPU time
     if shard == 0:
@@ -518,5 +530,5 @@ def replay(case):
         acc = Acc()
         timing(acc, "thorough")
         return [Discrepancy(v["bucket"], v["message"], v["case"]) for v in acc.violations if v["case"]["timing_family"] == case["timing_family"]]
-    label, msg = classify(case["text"], expand=case.get("expand", True))
+    label, msg = classify(case["text"], expand=case.get("expand", True), comments=case.get("comments", False), position=case.get("position", False))
     return [Discrepancy(label, msg, case)] if msg else []
